@@ -53,6 +53,7 @@ func goEnv() []string {
 }
 
 func loadEngine(repo string) (*Engine, error) {
+	repoRoot = repo
 	fset := token.NewFileSet()
 	cfg := &packages.Config{Mode: packages.LoadAllSyntax, Dir: repo, BuildFlags: []string{"-tags=verif"}, Fset: fset, Env: goEnv()}
 	pkgs, err := packages.Load(cfg, "./...")
